@@ -888,6 +888,20 @@ def v_int(x=0, *a):
     return builtins.int(x, *a)
 
 
+def _int_from_bytes(b, byteorder="big", *, signed=False):
+    if isinstance(b, SymBytes):
+        if byteorder != "big" or signed:
+            raise Unsupported("int.from_bytes: only unsigned big endian")
+        c = cur()
+        # only 8-byte fields are modelled; that the operand has 8 bytes is an obligation
+        c.prove(c.fresh_name("int.from_bytes.width8"), tm.Eq(tm.Len(b.t), tm.mk_int(8)), kind="pre")
+        return wrap_int(sym.be_decode(b.t, 8))
+    return builtins.int.from_bytes(b, byteorder, signed=signed)
+
+
+v_int.from_bytes = _int_from_bytes
+
+
 def v_bool(x=False):
     if is_symbolic(x):
         return wrap_bool(B(x))
